@@ -190,6 +190,35 @@ func checkEntrySSA(c *core.Ctx, r *core.Rule, key string, fn *ssa.Function) {
 					}
 				}
 				sort.Strings(bad)
+				// URL.Path is the decoded path. The matcher's static text is the normalised *escaped* template
+				// (a space in a template is matched as "%20"), so the decoded path may feed it only when no
+				// static text contains an escape.
+				if _, viaPath := out["field:Path"]; viaPath && len(bad) == 0 {
+					var esc []string
+					seenK := map[string]bool{}
+					for _, g := range core.AllFuncs(fn) {
+						for _, b := range g.Blocks {
+							for _, in := range b.Instrs {
+								var ops []*ssa.Value
+								for _, op := range in.Operands(ops) {
+									if k, ok := (*op).(*ssa.Const); ok && k.Value != nil && k.Value.Kind() == constant.String {
+										if sv := constant.StringVal(k.Value); strings.Contains(sv, "%") && strings.HasPrefix(sv, "/") || strings.Contains(sv, "%") && len(sv) > 2 && !strings.ContainsAny(sv, " :") {
+											if !seenK[sv] {
+												seenK[sv] = true
+												esc = append(esc, strconv.Quote(sv))
+											}
+										}
+									}
+								}
+							}
+						}
+					}
+					sort.Strings(esc)
+					if len(esc) > 0 {
+						r.Fail("decoded-path-vs-escaped-static", c.Pos(call.Pos()), fmt.Sprintf("%s: when URL.RawPath is empty the decoded URL.Path is matched against static text that contains escapes (%s): the canonical spelling of such a path (which net/url stores with an empty RawPath) is answered 404 while a needlessly escaped spelling matches", key, strings.Join(esc, ", ")))
+						continue
+					}
+				}
 				if len(bad) == 0 {
 					r.Pass(key + ": cutPrefix receives URL.Path or the normalised RawPath")
 				} else {
